@@ -74,6 +74,57 @@ theorem rel_next_stack {pc k : Nat} (hnext : P (pc + 1) (k + 1)) {st : State}
 
 end basics
 
+section pops
+variable {c c' : Chunk} {f : Nat → Nat}
+
+theorem popPairs_map : ∀ (n : Nat) (stk : List Slot) (acc : List (Key × Value)),
+    popPairs n (stk.map (mapSlot f)) acc =
+      match popPairs n stk acc with
+      | .ok a rest => .ok a (rest.map (mapSlot f))
+      | .err e => .err e
+      | .panic s => .panic s
+  | 0, stk, acc => rfl
+  | _ + 1, [], _ => rfl
+  | _ + 1, [_], _ => rfl
+  | n + 1, (v, _) :: (k, _) :: rest, acc => by
+    simp only [List.map_cons, mapSlot, popPairs]
+    split
+    · rfl
+    · exact popPairs_map n rest _
+
+theorem popPairs_good : ∀ (n : Nat) (stk : List Slot) (acc : List (Key × Value)) (a : List (Key × Value))
+    (rest : List Slot), GoodStack c c' f stk → popPairs n stk acc = .ok a rest → GoodStack c c' f rest
+  | 0, stk, acc, a, rest, h, he => by simp only [popPairs, PopRes.ok.injEq] at he; rw [← he.2]; exact h
+  | _ + 1, [], _, _, _, _, he => by simp [popPairs] at he
+  | _ + 1, [_], _, _, _, _, he => by simp [popPairs] at he
+  | n + 1, (v, _) :: (k, _) :: r, acc, a, rest, h, he => by
+    simp only [popPairs] at he
+    split at he
+    · cases he
+    · exact popPairs_good n r _ a rest (goodStack_tail (goodStack_tail h)) he
+
+theorem popN_map : ∀ (n : Nat) (stk : List Slot) (acc : List Value),
+    popN n (stk.map (mapSlot f)) acc =
+      match popN n stk acc with
+      | .ok a rest => .ok a (rest.map (mapSlot f))
+      | .err e => .err e
+      | .panic s => .panic s
+  | 0, stk, acc => rfl
+  | _ + 1, [], _ => rfl
+  | n + 1, (v, _) :: rest, acc => by
+    simp only [List.map_cons, mapSlot, popN]
+    exact popN_map n rest _
+
+theorem popN_good : ∀ (n : Nat) (stk : List Slot) (acc a : List Value) (rest : List Slot),
+    GoodStack c c' f stk → popN n stk acc = .ok a rest → GoodStack c c' f rest
+  | 0, stk, acc, a, rest, h, he => by simp only [popN, PopRes.ok.injEq] at he; rw [← he.2]; exact h
+  | _ + 1, [], _, _, _, _, he => by simp [popN] at he
+  | n + 1, (v, _) :: r, acc, a, rest, h, he => by
+    simp only [popN] at he
+    exact popN_good n r _ a rest (goodStack_tail h) he
+
+end pops
+
 section arms
 variable {c c' : Chunk} {f : Nat → Nat} {P : Nat → Nat → Prop} (hR : Ren c c' f)
   {pc k : Nat} (hpc : Good c c' f pc) (hk : f pc = k) (hnext : P (pc + 1) (k + 1))
@@ -242,32 +293,6 @@ theorem arm_set (n : String) (g : Bool) :
 
 /-! ### popping loops -/
 
-theorem popPairs_map : ∀ (n : Nat) (stk : List Slot) (acc : List (Key × Value)),
-    popPairs n (stk.map (mapSlot f)) acc =
-      match popPairs n stk acc with
-      | .ok a rest => .ok a (rest.map (mapSlot f))
-      | .err e => .err e
-      | .panic s => .panic s
-  | 0, stk, acc => rfl
-  | _ + 1, [], _ => rfl
-  | _ + 1, [_], _ => rfl
-  | n + 1, (v, _) :: (k, _) :: rest, acc => by
-    simp only [List.map_cons, mapSlot, popPairs]
-    split
-    · rfl
-    · exact popPairs_map n rest _
-
-theorem popPairs_good : ∀ (n : Nat) (stk : List Slot) (acc : List (Key × Value)) (a : List (Key × Value))
-    (rest : List Slot), GoodStack c c' f stk → popPairs n stk acc = .ok a rest → GoodStack c c' f rest
-  | 0, stk, acc, a, rest, h, he => by simp only [popPairs, PopRes.ok.injEq] at he; rw [← he.2]; exact h
-  | _ + 1, [], _, _, _, _, he => by simp [popPairs] at he
-  | _ + 1, [_], _, _, _, _, he => by simp [popPairs] at he
-  | n + 1, (v, _) :: (k, _) :: r, acc, a, rest, h, he => by
-    simp only [popPairs] at he
-    split at he
-    · cases he
-    · exact popPairs_good n r _ a rest (goodStack_tail (goodStack_tail h)) he
-
 theorem arm_buildMap (n : Nat) :
     StepRel c c' f P (stepBuildMap n pc st) (stepBuildMap n k (mapState f st)) := by
   unfold stepBuildMap
@@ -281,26 +306,6 @@ theorem arm_buildMap (n : Nat) :
       simp only
       nx ((Value.map (elems.foldl (fun m e => mapInsert m e.1 e.2) []), (pc, pc)) :: rest) ,
         (goodStack_cons (goodSlot_own hpc _) (popPairs_good n _ _ _ _ hst.1 hp))
-
-theorem popN_map : ∀ (n : Nat) (stk : List Slot) (acc : List Value),
-    popN n (stk.map (mapSlot f)) acc =
-      match popN n stk acc with
-      | .ok a rest => .ok a (rest.map (mapSlot f))
-      | .err e => .err e
-      | .panic s => .panic s
-  | 0, stk, acc => rfl
-  | _ + 1, [], _ => rfl
-  | n + 1, (v, _) :: rest, acc => by
-    simp only [List.map_cons, mapSlot, popN]
-    exact popN_map n rest _
-
-theorem popN_good : ∀ (n : Nat) (stk : List Slot) (acc a : List Value) (rest : List Slot),
-    GoodStack c c' f stk → popN n stk acc = .ok a rest → GoodStack c c' f rest
-  | 0, stk, acc, a, rest, h, he => by simp only [popN, PopRes.ok.injEq] at he; rw [← he.2]; exact h
-  | _ + 1, [], _, _, _, _, he => by simp [popN] at he
-  | n + 1, (v, _) :: r, acc, a, rest, h, he => by
-    simp only [popN] at he
-    exact popN_good n r _ a rest (goodStack_tail h) he
 
 theorem arm_buildList (n : Nat) :
     StepRel c c' f P (stepBuildList n pc st) (stepBuildList n k (mapState f st)) := by
